@@ -5,6 +5,7 @@ import (
 	"fmt"
 	"github.com/q191201771/lal/pkg/base"
 	"github.com/q191201771/lal/pkg/hls"
+	"github.com/q191201771/lal/pkg/remux"
 	"lalverif/gen"
 	"lalverif/srv"
 	"strings"
@@ -260,7 +261,7 @@ func init() {
 		CaseTimeout: func(string) time.Duration { return 10 * time.Minute },
 		Rule: "cases: (a) every length 1..2400 × key/non-key × PTS=DTS/PTS≠DTS × audio/video pid × incoming cc 0..15; " +
 			"(b) every length within ±376 of seeded multiples of 184 up to 200 KiB with seeded flags; (c) seeded lengths up to 300 KiB in chains of 3 frames; " +
-			"(d) PTS/DTS at 0 and around 2^33; (e) PackPat and PackPmt for all codec id pairs; (f) 12 streams (audio-only, AVC, HEVC, video-only; sparse audio, timestamp jumps) through the real RTMP→TS remuxer wired to the HLS muxer as logic.Group wires them: continuity counters over everything handed to the muxer advance by one per payload packet per PID. A cell is (clause-class: key × short/exact/multi × pts/dts × track) or a PMT codec pair; " +
+			"(d) PTS/DTS at 0 and around 2^33; (e) PackPat and PackPmt for all codec id pairs; (f) 12 streams (audio-only, AVC, HEVC, video-only; sparse audio, timestamp jumps) through the real RTMP→TS remuxer wired to the HLS muxer as logic.Group wires them: continuity counters over everything handed to the muxer advance by one per payload packet per PID; the PAT/PMT block handed over for a stream stays unchanged while a second stream with other codecs is remuxed in the same process; (g) probe sweep: the first message of the audio (video) track placed at message #2 … #16 of a video (audio) stream - the PMT declares both tracks. A cell is (clause-class: key × short/exact/multi × pts/dts × track) or a PMT codec pair; " +
 			"non-trivial = the frame was packed by lal and fully re-parsed by the reference demuxer.",
 		Assumptions: []string{"reference demuxer ref/ts.go follows ISO/IEC 13818-1; its self-test runs in setup_cmd",
 			"lal's constant 63000-tick PTS/DTS delay is permitted by the property text"},
@@ -317,6 +318,35 @@ func c09Remux(c *fw.Ctx, k int) {
 		}
 	}
 	c.Count("remuxer_callbacks_retained", len(rig.given))
+	// so does the PAT/PMT block: receivers keep it for joiners and new segments. Another stream with
+	// other codecs, remuxed in the same process afterwards, must not change it.
+	{
+		vc2, ac2 := "hevc", ""
+		if vc == "hevc" || vc == "hevc-enh" {
+			vc2 = "avc"
+		}
+		if vc == "" {
+			vc2, ac2 = "avc", "aac"
+		}
+		if ac == "" {
+			ac2 = "aac"
+		}
+		other := &c09Sink{}
+		rm := remux.NewRtmp2MpegtsRemuxer(other)
+		es2 := gen.BuildEs(c.SubRng("es2"), 2, gen.EsSpec{VCodec: vc2, ACodec: ac2, AacIdx: 4, AacChans: 2, AacObj: 2, NVideo: 30, GopLen: 5, AudioPer: 1, MaxNals: 1})
+		for _, m := range es2.RtmpMessages(true) {
+			var msg base.RtmpMsg
+			msg.Header.MsgTypeId, msg.Header.TimestampAbs, msg.Header.MsgLen, msg.Header.MsgStreamId, msg.Header.Csid = m.Type, m.Ts, uint32(len(m.Payload)), 1, csidFor(m.Type)
+			msg.Payload = m.Payload
+			rm.FeedRtmpMessage(msg)
+		}
+		rm.Dispose()
+		c.Count("second_streams_remuxed", 1)
+		if !bytes.Equal(rig.patpmtGiven, rig.patpmt) {
+			c.Violate("remux/patpmt-overwritten", fmt.Sprintf("the PAT/PMT block handed over for the first stream (%s/%s) was changed when a second stream (%s/%s) was remuxed in the same process (the block is kept by HTTP-TS groups and the HLS muxer) | spec=%+v", vc, ac, vc2, ac2, sp), nil)
+			return
+		}
+	}
 	// the PAT/PMT the remuxer announced declares exactly the stream's codecs
 	{
 		d := ref.NewTsDemux()
@@ -369,6 +399,76 @@ func c09Remux(c *fw.Ctx, k int) {
 	}
 	c.Eval(n)
 	c.Count("remuxer_packets_checked", n)
+}
+
+// c09Sink is a remuxer observer that only keeps the announced PAT/PMT.
+type c09Sink struct{ patpmt []byte }
+
+func (k *c09Sink) OnPatPmt(b []byte) { k.patpmt = append([]byte(nil), b...) }
+func (k *c09Sink) OnTsPackets(tsPackets []byte, frame *mpegts.Frame, boundary bool) {
+}
+
+// c09ProbeSweep: lal decides the program map from the first messages of a stream (at most 16). A
+// track whose first message is the 2nd … 16th message of the stream is inside that window: the
+// PMT must declare it (both directions: audio joining a video stream, video joining an audio stream).
+func c09ProbeSweep(c *fw.Ctx) {
+	es := gen.BuildEs(c.SubRng("probe"), 1, gen.EsSpec{VCodec: "avc", ACodec: "aac", AacIdx: 4, AacChans: 2, AacObj: 2, NVideo: 60, GopLen: 6, AudioPer: 1, MaxNals: 1})
+	var vs, as []gen.EsMsg
+	for _, m := range es.RtmpMessages(false) {
+		if m.Type == 8 {
+			as = append(as, m)
+		} else if m.Type == 9 {
+			vs = append(vs, m)
+		}
+	}
+	for _, lateAudio := range []bool{true, false} {
+		first, late := vs, as
+		if !lateAudio {
+			first, late = as, vs
+		}
+		for pos := 2; pos <= 16; pos++ {
+			c.Describe("probe sweep: first %s message is message #%d of the stream", map[bool]string{true: "audio", false: "video"}[lateAudio], pos)
+			var msgs []gen.EsMsg
+			msgs = append(msgs, first[:pos-1]...)
+			a, b := first[pos-1:], late
+			for len(a) > 0 || len(b) > 0 {
+				if len(b) > 0 {
+					msgs = append(msgs, b[0])
+					b = b[1:]
+				}
+				if len(a) > 0 {
+					msgs = append(msgs, a[0])
+					a = a[1:]
+				}
+			}
+			sink := &c09Sink{}
+			rm := remux.NewRtmp2MpegtsRemuxer(sink)
+			for _, m := range msgs {
+				var msg base.RtmpMsg
+				msg.Header.MsgTypeId, msg.Header.TimestampAbs, msg.Header.MsgLen, msg.Header.MsgStreamId, msg.Header.Csid = m.Type, m.Ts, uint32(len(m.Payload)), 1, csidFor(m.Type)
+				msg.Payload = m.Payload
+				rm.FeedRtmpMessage(msg)
+			}
+			rm.Dispose()
+			d := ref.NewTsDemux()
+			d.Feed(sink.patpmt)
+			var v, a8 uint8
+			for _, st := range d.FirstPmt.Streams {
+				if st.PID == 0x100 {
+					v = st.StreamType
+				}
+				if st.PID == 0x101 {
+					a8 = st.StreamType
+				}
+			}
+			c.Eval(1)
+			c.Cell("remuxer-probe/late-%s", map[bool]string{true: "audio", false: "video"}[lateAudio])
+			if v != 0x1b || a8 != 0x0f {
+				c.Violate(fmt.Sprintf("remux/pmt-codecs/track-starts-at-message-%d", pos), fmt.Sprintf("the %s track starts with message #%d of the stream (inside the 16-message probe), the PMT declares video %#x audio %#x (want 0x1b / 0xf)", map[bool]string{true: "audio", false: "video"}[lateAudio], pos, v, a8), nil)
+				return
+			}
+		}
+	}
 }
 
 func c09Run(c *fw.Ctx, i int) {
@@ -464,6 +564,7 @@ func c09Run(c *fw.Ctx, i int) {
 	default:
 		c.Describe("PackPat/PackPmt")
 		c09Psi(c)
+		c09ProbeSweep(c)
 		c.Sample(map[string]interface{}{"kind": "psi", "video_ids": []int{-1, 0, 2, 7, 12, 13, 255}, "audio_ids": []int{-1, 0, 2, 7, 8, 10, 13, 14, 255}})
 	}
 }
